@@ -23,6 +23,7 @@ EXPLANATION = (
     "pop-and-insert (which moves it to the end of the mapping and breaks column order / the rename-back law); (R6) update_column(s) apply the caller's overrides unfiltered (None removes a property); (R7) add_columns admits the new columns through the schema constructor so that invalid requests raise. (R8) definite assignment: no function of the schema container / component API modules reads a local that a branch-only path from its entry leaves unassigned (CFG may-analysis, optimistic about try bodies and loop bodies, correlated guards pruned) - an UnboundLocalError there would escape the transformation. " 
     " (R9) set_name stores the name only (the polars column may switch the regex flag on for an anchored pattern, never clear it); (R10) the schema API modules decide `unnamed` by `name is None` only - no truthiness test or `name or i` fallback (names '' / 0 are legal). " 
     " (R11) rename_columns passes the names listed in `unique` through the rename map as well. " 
+    " (R12) no transforming method returns the receiver itself on any path. " 
     "NOT decided: that the transformed schema accepts exactly the transformed "
     "frames; inverse laws on values."
 )
